@@ -716,6 +716,10 @@ func evalFunctionCall(node *CallExpression, env *Environment) Object {
 		return args[0]
 	}
 
+	if len(args) != funcObj.Arity {
+		return newError("incorrect number of operands for operator or function; operator or function: %s, number of operands: %d", funcObj.Name, len(args))
+	}
+
 	return fn.(*Function).Value(args...)
 }
 
@@ -737,6 +741,10 @@ func evalUpdateFunctionCall(node *CallExpression, env *Environment) Object {
 	args := evalUpdateExpressions(node.Arguments, env)
 	if len(args) == 1 && isError(args[0]) {
 		return args[0]
+	}
+
+	if len(args) != funcObj.Arity {
+		return newError("incorrect number of operands for operator or function; operator or function: %s, number of operands: %d", funcObj.Name, len(args))
 	}
 
 	return fn.(*Function).Value(args...)
